@@ -32,7 +32,7 @@ def run_profile(res, profile, n_per_job, jobs_per_fw, label):
                           trace=t, rejected_at=l, spec="WsConnTrace"))
     need = {"TOpened", "TLClose", "TLBurst", "TLSend", "TPClose", "TPData", "TPPing", "TPPong", "TPViol", "TLost", "TAdv"}
     missing = [a for a in need if res.actions.get("WsConnTrace:" + a, 0) == 0]
-    if missing:
+    if missing and not v["rejected"]:
         raise common.MachineryError("vacuity: trace actions never taken: %s" % missing)
     res.sample(dict(cfg=traces[0][0]["cfg"], events=[(e["ev"], e["obs"]["st"]) for e in traces[0]]))
     res.sample(traces[1][:4])
